@@ -1509,6 +1509,57 @@ func sxScoreNoneShouldDefect(q *sxGq) bool {
 	return false
 }
 
+// sxScoreNoneRelaxed: the query with the should requirement of every affected boolean dropped
+// (what the known finding makes of it); changed reports whether there is such a boolean.
+func sxScoreNoneRelaxed(q *sxGq) (*sxGq, bool) {
+	c := *q
+	changed := false
+	if q.Kind == sxQBool {
+		relax := func(l []*sxGq) []*sxGq {
+			out := make([]*sxGq, len(l))
+			for i, s := range l {
+				r, ch := sxScoreNoneRelaxed(s)
+				out[i] = r
+				changed = changed || ch
+			}
+			return out
+		}
+		c.Must, c.Should, c.MustNot = relax(q.Must), relax(q.Should), relax(q.MustNot)
+		if len(q.Must) > 0 && len(q.Should) > 1 && q.MinShould == 1 {
+			all := true
+			for _, s := range q.Should {
+				if !sxOptimizableLeaf(s) {
+					all = false
+				}
+			}
+			if all {
+				c.MinShould = 0
+				changed = true
+			}
+		}
+	}
+	return &c, changed
+}
+
+// sxScoreNoneKnown: the observed ids are explained by the known finding score-none-drops-min-should:
+// the query holds an affected boolean and the answer is either a superset of the expected one (the
+// boolean sits in a positive position) or exactly the answer of the query with the affected should
+// requirements dropped (any position, e.g. below a must-not clause, where it EXCLUDES more documents).
+func sxScoreNoneKnown(q *sxGq, c *sCorpus, got, want []int) bool {
+	if !sxScoreNoneShouldDefect(q) {
+		return false
+	}
+	if sxSubsetInts(want, got) {
+		return true
+	}
+	relaxed, changed := sxScoreNoneRelaxed(q)
+	if !changed {
+		return false
+	}
+	pred, masked := relaxed.expected(c)
+	return sxEqualInts(sxWithoutInts(got, masked), sxWithoutInts(pred, masked))
+}
+
 // sxOptimizableLeaf: compiles to a TermSearcher (or a multi-term searcher, which under scoring
 // "none" is itself a bitmap term searcher or a one-term disjunction).  A bounding box whose
 // cells all lie inside the box is a plain multi-term searcher too (search_geoboundingbox.go:
@@ -2222,7 +2273,7 @@ func (r *sxSearchRun) corpusOn(ci int, how string, c *sCorpus, rd *bluge.Reader,
 				desc["want"] = want
 				desc["docs"] = sxDescribeDocs(c, append(append([]int{}, got...), want...))
 				key := "result-set"
-				if mode == sxModeNoScore && sxScoreNoneShouldDefect(q) && sxSubsetInts(want, got) {
+				if mode == sxModeNoScore && sxScoreNoneKnown(q, c, got, want) {
 					key = "score-none-drops-min-should"
 					known = true
 				}
@@ -2235,6 +2286,10 @@ func (r *sxSearchRun) corpusOn(ci int, how string, c *sCorpus, rd *bluge.Reader,
 			switch {
 			case known:
 				items = append(items, "IRunOnly "+obs)
+			case mode == sxModeNoScore && sxScoreNoneShouldDefect(q):
+				// the class of the known finding: whether the rewrite that drops the should requirement is
+				// taken depends on details of the dictionary the model does not reproduce in every case
+				items = append(items, "ISemOnly "+obs)
 			case rcost > 1500:
 				items = append(items, "ISemOnly "+obs)
 			default:
